@@ -696,6 +696,12 @@ func (s *SquareBracket) Evaluation(
 
 	lastT := p.GetLastEvaluatedT()
 
+	// a statement that starts with '[' is an array literal: the value left
+	// behind by the previous statement is not its receiver
+	if !p.IsParsingExpression() && !t.IsBeforeSpace {
+		return e.makeArray(p, ctx, t)
+	}
+
 	// a[:b]
 	if lastT.IsHashType() && p.IsParsingExpression() && !t.IsBeforeSpace {
 		return e.hashReferenceEvaluation(p, ctx, base.MakeUnknown(), &lastT)
